@@ -53,7 +53,7 @@ ASSUMPTIONS = ['CompilerError (and TaskError raised from one) is the diagnostic 
 # C28_CORPUS / C28_EXPECT: alternative files (used to try a patched tree without touching the committed state)
 CORPUS = os.environ.get('C28_CORPUS') or os.path.join(os.path.dirname(os.path.abspath(__file__)), 'c28_corpus.json')
 EXPECT = os.environ.get('C28_EXPECT') or os.path.join(os.path.dirname(os.path.abspath(__file__)), 'c28_expect.json')
-DETERMINISTIC = ('c-template', 'c-constctx', 'c3-template', 'c-boundary')   # program text does not depend on the seed
+DETERMINISTIC = ('c-template', 'c-constctx', 'c3-template', 'c-boundary', 'c-boundary-cc', 'c3-boundary')   # program text does not depend on the seed
 
 
 def task_sha(t):
@@ -214,6 +214,11 @@ def streams(ctx, only_deterministic=False):
         add('c3', 'c3_to_ir', src, 'c3-template', h(src), includes=[c28_c3.BSP])
     for (k, src) in c28_bad.boundary_literals():      # always in full: limits of every literal kind
         add('c', 'c_to_ir', src, 'c-boundary', 0, march=['x86_64', 'arm', 'msp430'][h(src) % 3], opt=0)
+    for (k, src) in c28_bad.boundary_functions():     # the same literals as operands, through the whole compiler
+        add('c', 'cc', src, 'c-boundary-cc', 0, march=['x86_64', 'arm', 'riscv'][h(src) % 3], opt=(h(src) // 3) % 3)
+    for (k, src) in c28_c3.c3_boundary():
+        add('c3', 'c3_to_ir', src, 'c3-boundary', 0, march=['x86_64', 'arm', 'msp430'][h(src) % 3], opt=0,
+            includes=[c28_c3.BSP])
     return tasks
 
 
@@ -276,11 +281,9 @@ def search(ctx, nproc=4):
         for key in sorted(regress):
             ln, t, o = sorted(regress[key], key=lambda x: x[0])[0]
             was = {'o': 'compiled', 'd': 'rejected with a CompilerError'}[expect[task_sha(t)]]
-            t = minimise(runner, t, key, 120)
-            o2 = runner.run_one(t)
-            if o2.get('status') == 'internal' and key3(t, o2) == key:
-                o = o2
-            rec = make_rec(t, o, True)
+            # not minimised: the programs are one declaration after a three line prelude, and shrinking could
+            # leave a program that fails for another reason than the one that changed its recorded outcome
+            rec = make_rec(t, o, False)
             rec['class'] += '-regression'
             rec['key'] = 'regression:' + rec['key']
             rec['expected'] = 'this program %s when tools/props/c28_expect.json was recorded (%d programs regress ' \
